@@ -239,13 +239,12 @@ class Bus (objects.DBusObject):
             elif mt == 4:
                 self.signalReceived(p, msg)
 
-            if (
-                    msg.destination
-                    and not msg.destination == 'org.freedesktop.DBus'
-            ):
-                self.sendMessage(msg)
-
-            self.router.routeMessage(msg)
+            if msg.destination:
+                # addressed messages go to their destination only
+                if not msg.destination == 'org.freedesktop.DBus':
+                    self.sendMessage(msg)
+            else:
+                self.router.routeMessage(msg)
         except DError as e:
             sig = None
             body = None
